@@ -283,6 +283,8 @@ def Sm9EncKey.decrypt (key : Sm9EncKey) (idb data : List UInt8) : Outcome (List 
     let c1_bytes := data.take 65
     let c2 := data.drop (65 + 32)
     let c3 := (data.drop 65).take 32
+    -- the fixed code (5551fcc): the coordinates of C1 must be field elements; an encoding with x >= p or y >= p is not a point
+    if Gen.SM9.P ≤ beNat ((c1_bytes.drop 1).take 32) ∨ Gen.SM9.P ≤ beNat ((c1_bytes.drop 33).take 32) then .err "InvalidPoint" else
     (Point.from_bytes c1_bytes).bind fun c1 =>
     -- B1
     if !c1.is_on_curve then .err "InvalidPoint" else
